@@ -263,7 +263,7 @@ theorem mkProc_expands (cx : Ctx) (kind : PKind) (sec : Section) (pre : Pre) (s 
     re-applied `common_expansions` — for every later expansion (provided neither the ENV_ expansions nor
     `common_expansions` define these two names; `commonExps_no_loop_names` below) -/
 theorem loop_expansions_bind (cx : Ctx) (pre : Pre) (s : XS) (num : Int) (env : KV)
-    (hp : ∀ kv ∈ cx.penv, kv.1 ≠ "process_num" ∧ kv.1 ≠ "numprocs")
+    (hp : ∀ kv ∈ cx.senv, kv.1 ≠ "process_num" ∧ kv.1 ≠ "numprocs")
     (hc : ∀ kv ∈ s.common, kv.1 ≠ "process_num" ∧ kv.1 ≠ "numprocs") :
     (loopHead cx pre s num).cur.lookup "process_num" = some (.i num) ∧
     (loopHead cx pre s num).cur.lookup "numprocs" = some (.i pre.numprocs) ∧
@@ -271,9 +271,9 @@ theorem loop_expansions_bind (cx : Ctx) (pre : Pre) (s : XS) (num : Int) (env : 
     (envExps (loopHead cx pre s num).cur env).lookup "numprocs" = some (.i pre.numprocs) ∧
     (dupdate (envExps (loopHead cx pre s num).cur env) s.common).lookup "process_num" = some (.i num) ∧
     (dupdate (envExps (loopHead cx pre s num).cur env) s.common).lookup "numprocs" = some (.i pre.numprocs) := by
-  have r1 : cx.penv.reverse.lookup "process_num" = none :=
+  have r1 : cx.senv.reverse.lookup "process_num" = none :=
     lookup_none_of_keys _ _ (fun kv h => (hp kv (List.mem_reverse.mp h)).1)
-  have r2 : cx.penv.reverse.lookup "numprocs" = none :=
+  have r2 : cx.senv.reverse.lookup "numprocs" = none :=
     lookup_none_of_keys _ _ (fun kv h => (hp kv (List.mem_reverse.mp h)).2)
   have c1 : s.common.reverse.lookup "process_num" = none :=
     lookup_none_of_keys _ _ (fun kv h => (hc kv (List.mem_reverse.mp h)).1)
